@@ -17,6 +17,21 @@ from numbers import Real
 from collections.abc import Sized, Iterable
 
 
+def static_part(expr):
+    """
+    The deterministic part of a per-scenario expression used inside a convex
+    function; an expression that still depends on random variables cannot be
+    used there.
+    """
+
+    if isinstance(expr, RoAffine):
+        if expr.raffine.linear.nnz > 0 or np.any(expr.raffine.const):
+            raise ValueError('Incorrect convex expressions.')
+        return expr.affine
+
+    return expr
+
+
 class Model:
     """
     Returns a model object with the given number of scenarios.
@@ -576,10 +591,10 @@ class Model:
                     linear_sc = scale.linear
                     const_sc = scale.const
                     aff_scale = linear_sc@drule + const_sc.reshape(const_sc.size)
+                    aff_scale = static_part(aff_scale)
                 aff_scale = aff_scale.reshape(constr.affine_scale.shape)
 
-                if isinstance(aff_in, RoAffine):
-                    aff_in = aff_in.affine
+                aff_in = static_part(aff_in)
                 if isinstance(constr.affine_out, (np.ndarray, Real)):
                     linear_out = np.zeros((constr.affine_out.size, drule.shape[0]))
                     const_out = constr.affine_out
@@ -587,8 +602,7 @@ class Model:
                     linear_out = constr.affine_out.linear
                     const_out = constr.affine_out.const
                 aff_out = linear_out@drule + const_out.reshape(const_out.size)
-                if isinstance(aff_out, RoAffine):
-                    aff_out = aff_out.affine
+                aff_out = static_part(aff_out)
                 aff_out = aff_out.reshape(constr.affine_out.shape)
 
                 ew_constr = PCvxConstr(aff_in.model, aff_in, aff_scale, aff_out,
@@ -598,8 +612,7 @@ class Model:
                 const_in = constr.affine_in.const
                 aff_in = linear_in@drule + const_in.reshape(const_in.size)
                 aff_in = aff_in.reshape(constr.affine_in.shape)
-                if isinstance(aff_in, RoAffine):
-                    aff_in = aff_in.affine
+                aff_in = static_part(aff_in)
                 if isinstance(constr.affine_out, (np.ndarray, Real)):
                     linear_out = np.zeros((constr.affine_out.size, drule.shape[0]))
                     const_out = constr.affine_out
@@ -608,14 +621,16 @@ class Model:
                     const_out = constr.affine_out.const
                 aff_out = linear_out@drule + const_out.reshape(const_out.size)
                 aff_out = aff_out.reshape(constr.affine_out.shape)
-                if isinstance(aff_out, RoAffine):
-                    aff_out = aff_out.affine
+                aff_out = static_part(aff_out)
                 ew_constr = CvxConstr(aff_in.model, aff_in, aff_out,
                                       constr.multiplier, constr.xtype,
                                       params=constr.params)
             elif isinstance(constr, DecExpConstr):
                 if isinstance(drule, RoAffine):
                     drule_affine = drule.affine
+                    for item in (constr.expr1, constr.expr2, constr.expr3):
+                        if not isinstance(item, Real):
+                            static_part(item.to_affine().linear@drule)
                 else:
                     drule_affine = drule
 
@@ -643,6 +658,7 @@ class Model:
             elif isinstance(constr, DecLMIConstr):
                 if isinstance(drule, RoAffine):
                     drule_affine = drule.affine
+                    static_part(constr.linear@drule)
                 else:
                     drule_affine = drule
 
